@@ -1,4 +1,5 @@
 import ServiceModel.Properties.C08
+import ServiceModel.Proofs.Once
 /-!
 # C02 — Each paid request is settled exactly once, to the right party
 -/
@@ -125,5 +126,24 @@ theorem settled_request_not_settled_again (s : State) (r : ReqId) (pv : Addr) (c
   have := accepted_response_was_pending _ r pv2 code2 out2 h2
   rw [hact, FSet.mem_rem] at this
   exact this.2 rfl
+
+variable {cfg : Config} {p : Params} {h0 t0 : Int}
+
+/-- Exactly once over a whole history: a request that stopped being pending in some step (it was answered, or it
+    expired — the only two settlements) is never pending again, whatever well-formed operations follow: new pending
+    requests are only created by the new-batch handler with a batch number above the context's counter, the counter
+    never decreases, and a context id is never used twice. -/
+theorem settled_request_never_pending_again (hc : CfgOK cfg p) {s s' : State} (hr : Reachable cfg p h0 t0 s)
+    (op : Op) (hw : WF s op) (r : ReqId) (hact : r ∈ s.activeI) (hgone : r ∉ (step s op).1.activeI)
+    (hl : Leads (step s op).1 s') : r ∉ s'.activeI :=
+  (spent_leads hc (Reachable.step op hr hw) hl r (spent_of_deactivated (reachable_inv hc hr) op hw r hact hgone)).1
+
+/-- … hence no later response to it is ever accepted (and the expiry handler, which only visits pending requests,
+    never settles it either): each request is settled at most once in every history. -/
+theorem settled_request_never_answered_again (hc : CfgOK cfg p) {s s' : State} (hr : Reachable cfg p h0 t0 s)
+    (op : Op) (hw : WF s op) (r : ReqId) (hact : r ∈ s.activeI) (hgone : r ∉ (step s op).1.activeI)
+    (hl : Leads (step s op).1 s') (pv : Addr) (code : Nat) (out : OutKind) :
+    (respond s' r pv code out).2.1 ≠ .ok :=
+  fun h => settled_request_never_pending_again hc hr op hw r hact hgone hl (accepted_response_was_pending s' r pv code out h)
 
 end SM.C02
